@@ -91,13 +91,13 @@ def run(ck, ctx):
         ck.floor("R17.1", len(muts), 14, "mutations of the results table below compute()")
         for e in muts:
             owner = e.funcs()[-1] if e.funcs() else "?"
-            ok = is_writer(owner)
+            ok = any(is_writer(f) for f in e.funcs())
             if not ok:
                 ck.ob("R17.1", f"results table mutated outside the staged writer [{owner} at {e.where()}]", False,
                       e.node, owner, f"{e.kind} {e.data.get('name') or e.data.get('how')}",
                       construct=f"{owner}: results table mutated outside the staged writer")
         ck.ob("R17.1", "the results table is mutated only inside the staged writer's methods",
-              all(is_writer(e.funcs()[-1] if e.funcs() else "") for e in muts), table, func,
+              all(any(is_writer(f) for f in e.funcs()) for e in muts), table, func,
               f"{len(muts)} mutation(s) inspected")
     ck.guard(r171, "R17.1")
 
@@ -190,14 +190,16 @@ def run(ck, ctx):
     def r173():
         for e in file_w:
             owner = e.funcs()[-1] if e.funcs() else "?"
-            ok = is_writer(owner) and _under(e.pc, ws) and e.data.get("name") == "write"
+            # the write belongs to the staged writer when it happens below one of its methods (directly or in a
+            # helper the method calls)
+            ok = any(is_writer(f) for f in e.funcs()) and _under(e.pc, ws) and e.data.get("name") == "write"
             if not ok:
                 ck.ob("R17.3", f"file output outside the guarded staged write [{owner} at {e.where()}]", False, e.node,
                       owner, f"{e.data.get('callee')} " + ("not under write_stages" if is_writer(owner) else ""),
                       construct=f"{owner}: file output {e.data.get('callee')}")
         ck.ob("R17.3", "every file-output effect below compute() is the staged write under write_stages "
               "(with intermediate writing disabled the simulation writes nothing)",
-              all(is_writer(e.funcs()[-1] if e.funcs() else "") and _under(e.pc, ws)
+              all(any(is_writer(f) for f in e.funcs()) and _under(e.pc, ws)
                   for e in file_w), table, func, f"{len(file_w)} file-output effect(s) inspected")
         ck.floor("R17.3", len(file_w), 14, "guarded writes")
         unk = [e for e in CG.effects if e.kind in ("extcall-unknown", "call-unknown", "mcall-unknown", "unsupported")]
